@@ -79,6 +79,9 @@ func (s *TW) Ops(w *ksim.World) []ksim.Op {
 				continue
 			}
 			for _, link := range s.linksOf(src) {
+				if !has(s.Links, link) {
+					continue
+				}
 				for _, route := range orInts(s.Routes, RV1) {
 					for _, snd := range orInts(s.Senders, 0) {
 						for di, d := range e.Denoms {
